@@ -415,6 +415,29 @@ func (c *PolyCtx) loadPoly1(ld *ssa.UnOp) Poly {
 	return c.note(polySym(path+"{"+strings.Join(ids, ",")+"}"+sep), ld)
 }
 
+// forwardedStore: the one store of exactly this path that dominates the load and is the
+// only store reaching it.
+func (c *PolyCtx) forwardedStore(ld *ssa.UnOp) *ssa.Store {
+	path, ok := c.accessPath(ld.X)
+	if !ok {
+		return nil
+	}
+	var reach []*ssa.Store
+	for _, s := range c.storesTo(path) {
+		if InstrReaches(s, ld) {
+			reach = append(reach, s)
+		}
+	}
+	if len(reach) != 1 {
+		return nil
+	}
+	s := reach[0]
+	if p, _ := c.accessPath(s.Addr); p == path && InstrDominates(s, ld) && !InstrReaches(ld, s) {
+		return s
+	}
+	return nil
+}
+
 // rootName renders a parameter / free variable as the root of a path.
 func (c *PolyCtx) rootName(v ssa.Value) string {
 	switch x := v.(type) {
@@ -709,6 +732,15 @@ func (c *PolyCtx) lenOf(v ssa.Value) Poly {
 		return hi.Sub(lo)
 	case *ssa.MakeSlice:
 		return c.Of(x.Len)
+	case *ssa.UnOp:
+		// a load forwarded from the single dominating store of a slice made in this function
+		if x.Op == token.MUL && c.G {
+			if st := c.forwardedStore(x); st != nil {
+				if mk, ok := st.Val.(*ssa.MakeSlice); ok {
+					return c.Of(mk.Len)
+				}
+			}
+		}
 	case *ssa.Call:
 		if b, ok := x.Call.Value.(*ssa.Builtin); ok && b.Name() == "append" {
 			// append(a, b...) : len(a)+len(b) when variadic spread of a slice
